@@ -29,7 +29,7 @@ from . import common
 
 PROPERTY = "C02"
 LEVEL = "exploration"
-RUNS = {"quick": 700, "thorough": 25000}
+RUNS = {"quick": 2500, "thorough": 60000}
 BATCH = 10
 RULE = ("seeded server configurations (shipped protocol list, permutations, sub-lists; TLS context or not) each "
         "serving a history of 8-24 connections: canonical request shapes and near-misses of every protocol, "
@@ -283,7 +283,8 @@ def execute(sc, tape=None):
                         break
                     continue
                 # (3) strictness
-                if SECURE.get(cls) != wrapped:
+                sec = run.protocol_secure[len(run.protocol_choices) - 1] if run.protocol_secure else SECURE.get(cls)
+                if sec is not None and bool(sec) != wrapped:
                     viol = {"oracle": "tls-strict", "signature": dict(sig, oracle="tls-strict", cls=cls),
                             "detail": "%s answered a %s connection (line %r)" % (
                                 cls, "TLS" if wrapped else "plaintext", want_line[:60])}
@@ -300,6 +301,8 @@ def execute(sc, tape=None):
                 if cn["line"] is not None and cn["label"] != "random-bytes":
                     hdrs = HEADER_VARIANTS[cn["hv"]]
                     want = None
+                    if cls not in SECURE or any(k not in SECURE for k in classes_in_list):
+                        continue   # a class this model does not know: no verdict on order
                     for k in classes_in_list:
                         if shape_matches(k, cn["line"], wrapped, hdrs):
                             want = k
@@ -310,6 +313,12 @@ def execute(sc, tape=None):
                                                   hv=cn["hv"]),
                                 "detail": "line %r tls=%s headers=%s list=%r: got %s, documented shapes say %s" % (
                                     cn["line"], wrapped, cn["hv"], classes_in_list, cls, want)}
+                        break
+                    if want is None and cls is not None:
+                        viol = {"oracle": "only-a-matching-protocol-claims",
+                                "signature": dict(sig, oracle="only-a-matching-protocol-claims", got=cls),
+                                "detail": "line %r tls=%s list=%r: no documented shape in the list matches, yet %s answered" % (
+                                    cn["line"], wrapped, classes_in_list, cls)}
                         break
                     if want == "WAPProtocol" and not cn["line"].split(" ")[1].startswith("/wap"):
                         counters["wap_autodetected"] = counters.get("wap_autodetected", 0) + 1
